@@ -204,7 +204,7 @@ const FAULT_MENU: [FaultKind; 7] = [
 /// Scripted plain workloads that some sweep checks run after their generated ones.
 fn sweep_scripts(id: &str) -> Vec<(&'static str, u64, u64, ScriptFn)> {
     match id {
-        "C02" => vec![("wrap", 1000, 100_000, wrap_script), ("disconnect-given-up-then-resume", 300, 30_000, crate::scripts::disconnect_given_up_script)],
+        "C02" => vec![("wrap", 1000, 100_000, wrap_script), ("disconnect-given-up-then-resume", 300, 30_000, crate::scripts::disconnect_given_up_script), ("flush-fault-then-resume", 300, 30_000, crate::scripts::c06_flush_fault_script)],
         "C05" | "C18" => vec![("many-fresh-sessions", 24, 600, crate::scripts::fresh_sessions_script)],
         "C03" => vec![("window-saturation", 500, 50_000, crate::scripts::saturation_script), ("wrap", 400, 40_000, wrap_script), ("disconnect-given-up-then-resume", 300, 30_000, crate::scripts::disconnect_given_up_script)],
         "C16" => vec![("wrap", 300, 30_000, wrap_script), ("window-saturation", 200, 20_000, crate::scripts::saturation_script), ("ping-between-pieces", 200, 20_000, crate::scripts::ping_between_pieces_script)],
@@ -546,7 +546,14 @@ fn wrap_script(r: &mut Rng, _index: u64, _tier: Tier) -> (CaseCfg, Vec<Step>) {
     if !burn {
         s.push(Step::SetNextPid(before));
     }
-    s.push(connect_with(SpMode::Force(true), AckMode::Hold, vec![]));
+    // (one time in three the connection on which the counter comes round has a broker that
+    // caps publishes at QoS 1 or QoS 0: what is in flight from before is in flight all the same)
+    let cap = match r.below(6) {
+        0 => vec![crate::refcodec::Prop::MaximumQoS(1)],
+        1 => vec![crate::refcodec::Prop::MaximumQoS(0)],
+        _ => vec![],
+    };
+    s.push(connect_with(SpMode::Force(true), AckMode::Hold, cap));
     s.push(poll0());
     if burn {
         let cur = base as usize + n_long;
@@ -880,7 +887,7 @@ pub fn all() -> Vec<Box<dyn Check>> {
             "a transport whose write returns Ok(0) violates embedded-io and is not judged",
             "user inputs are valid (topics without wildcards, legal reason codes, legal properties)",
         ],
-        workloads: vec![("cancel-matrix", 120, 30_000, c01_cancel_heavy as ProfileFn), ("general", 3000, 600_000, general), ("cancel-heavy", 3000, 900_000, c01_cancel_heavy)],
+        workloads: vec![("cancel-matrix", 120, 30_000, c01_cancel_heavy as ProfileFn), ("general", 3000, 600_000, general), ("cancel-heavy", 3000, 900_000, c01_cancel_heavy), ("inbound-qos2-full", 300, 30_000, inbound_qos2_full)],
         monitor: m::c01::check,
         max_steps: 50,
         epilogue_polls: 0,
@@ -957,7 +964,7 @@ pub fn all() -> Vec<Box<dyn Check>> {
         level: "exploration",
         rule: concat!("programs with Receive Maximum in {1,2,3,7,8,9,16,65535,absent}, mixed QoS 1/2, held/reordered acks, cancellations and resumed reconnects; conservation monitor in the broker's view (PUBLISH completed on the wire minus acks the broker has sent, plus exchanges entering the connection in the release phase). Non-trivial iff a publish was refused NotReady or a resumed connection began with publishes in flight.", " Scripted workload `window-saturation`: eight QoS 2 exchanges waiting for PUBCOMP under a broker window of 8, 9, 20 or 65535, then more requests than the local window holds."),
         assumptions: COMMON_ASSUME.to_vec(),
-        workloads: vec![("window-heavy", 4000, 2_000_000, Source::Gen(window_heavy)), ("general", 2000, 1_000_000, Source::Gen(general)), ("window-saturation", 500, 100_000, Source::Script(crate::scripts::saturation_script))],
+        workloads: vec![("window-heavy", 4000, 2_000_000, Source::Gen(window_heavy)), ("general", 2000, 1_000_000, Source::Gen(general)), ("window-saturation", 500, 100_000, Source::Script(crate::scripts::saturation_script)), ("flush-fault-then-resume", 400, 40_000, Source::Script(crate::scripts::c06_flush_fault_script))],
         monitor: m::c06::check,
         max_steps: 80,
         epilogue_polls: 0,
